@@ -22,6 +22,7 @@ import (
 	"sigs.k8s.io/cli-utils/pkg/object"
 	printcommon "sigs.k8s.io/cli-utils/pkg/print/common"
 	"sigs.k8s.io/cli-utils/pkg/printers"
+	"sigs.k8s.io/cli-utils/pkg/printers/printer"
 	"verifharness/emit"
 )
 
@@ -345,11 +346,35 @@ func project(raw string) (term string, ok bool) {
 	return "LError", false
 }
 
+var (
+	printerCalls  int
+	sharedPrinter printer.Printer
+	sharedOut     *bytes.Buffer
+	sharedErr     *bytes.Buffer
+)
+
 // runPrinter executes the real printer.
 func runPrinter(es []mev, printStatus bool) (lines []string, allJSON bool, res int, raw string) {
-	var out, errOut bytes.Buffer
-	ioStreams := genericiooptions.IOStreams{In: &bytes.Buffer{}, Out: &out, ErrOut: &errOut}
-	p := printers.GetPrinter(printers.JSONPrinter, ioStreams)
+	// Every third call goes through ONE long-lived printer instance that has already printed
+	// the earlier streams given to it: a printer must not carry counters or buffered output
+	// from one Print call into the next.
+	printerCalls++
+	var out, errOut *bytes.Buffer
+	var p printer.Printer
+	if printerCalls%3 == 0 {
+		if sharedPrinter == nil {
+			sharedOut, sharedErr = &bytes.Buffer{}, &bytes.Buffer{}
+			sharedPrinter = printers.GetPrinter(printers.JSONPrinter,
+				genericiooptions.IOStreams{In: &bytes.Buffer{}, Out: sharedOut, ErrOut: sharedErr})
+		}
+		sharedOut.Reset()
+		sharedErr.Reset()
+		out, errOut, p = sharedOut, sharedErr, sharedPrinter
+	} else {
+		out, errOut = &bytes.Buffer{}, &bytes.Buffer{}
+		p = printers.GetPrinter(printers.JSONPrinter,
+			genericiooptions.IOStreams{In: &bytes.Buffer{}, Out: out, ErrOut: errOut})
+	}
 	ch := make(chan event.Event, len(es)+1)
 	for _, e := range es {
 		ch <- e.real()
